@@ -23,7 +23,7 @@ var R = hx.NewRecorder("C07", "cases = established sessions (both GMSSL ECC suit
 	"non-trivial = a fault that hit a record with genuine records before or after it; distinct by hash of (suite, direction, writes, fault)")
 
 func TestMain(m *testing.M) {
-	for _, k := range []string{"bitflip", "truncate", "extend", "hdr_type", "hdr_version", "hdr_len", "drop", "duplicate", "swap", "replay_other_dir", "replay_preccs", "replay_other_conn", "cut", "pad_valid", "pad_corrupt"} {
+	for _, k := range []string{"bitflip", "truncate", "extend", "hdr_type", "hdr_version", "hdr_len", "drop", "duplicate", "swap", "replay_other_dir", "replay_preccs", "replay_other_conn", "cut", "pad_valid", "pad_corrupt", "oversize_plain"} {
 		R.Require("fault:" + k)
 	}
 	R.Require("long_session", "padmax:255", "padmax:240", "suite:e013", "suite:e053", "dir:c2s", "dir:s2c", "control_tls12", "padlen_all_16", "bitflip_exhaustive_done")
@@ -141,7 +141,7 @@ func (m *mitm) one(rec []byte) [][]byte {
 	case "cut":
 		m.cut = true
 		return nil
-	case "pad_valid", "pad_corrupt":
+	case "pad_valid", "pad_corrupt", "oversize_plain":
 		if c := m.crafted(rec); c != nil {
 			return [][]byte{c}
 		}
@@ -199,7 +199,7 @@ func runFault(t interface{ Fatalf(string, ...any) }, s sess, f fault, id string)
 	gm := s.Suite == tlsx.GMECCSM4CBCSM3 || s.Suite == tlsx.GMECCSM4GCMSM3
 	var log *[]rgmssl.Chunk
 	m.crafted = func(orig []byte) []byte {
-		if !gm || s.Suite != tlsx.GMECCSM4CBCSM3 || orig[0] != 23 {
+		if !gm || (s.Suite != tlsx.GMECCSM4CBCSM3 && f.Kind != "oversize_plain") || orig[0] != 23 {
 			return nil
 		}
 		// derive this session's keys independently from the handshake seen so far
@@ -229,6 +229,21 @@ func runFault(t interface{ Fatalf(string, ...any) }, s sess, f fault, id string)
 			return nil
 		}
 		plain = rr[f.Index].Plain
+		if f.Kind == "oversize_plain" {
+			// a correctly keyed, correctly numbered record whose plaintext exceeds 2^14 bytes while the record as a whole
+			// stays below the ciphertext limit 2^14+2048: the receiver must refuse it (record_overflow)
+			big := make([]byte, 16385+f.K%1500)
+			gen.Fill(big, uint64(f.K))
+			iv := keys.ServerIV
+			if s.C2S {
+				iv = keys.ClientIV
+			}
+			explicit := bytes.Repeat([]byte{0x42}, 16)
+			if s.Suite == tlsx.GMECCSM4GCMSM3 {
+				explicit = []byte{0, 0, 0, 0, 0, 0, 0, byte(f.Index)}
+			}
+			return rgmssl.Seal(s.Suite, macKey, key, iv, uint64(f.Index), 23, explicit, big)
+		}
 		return sealWithPad(macKey, key, uint64(f.Index), plain, f.Pad, f.Kind == "pad_corrupt", f.K)
 	}
 	sc := tlsx.Script{Setup: func(cw, sw *wire.Conn) {
@@ -507,7 +522,7 @@ func writesGen() *rapid.Generator[[][]byte] {
 	})
 }
 
-var faultKinds = []string{"bitflip", "bitflip", "truncate", "extend", "hdr_type", "hdr_version", "hdr_len", "drop", "duplicate", "swap", "replay_other_dir", "replay_preccs", "replay_other_conn", "cut", "pad_valid", "pad_corrupt"}
+var faultKinds = []string{"bitflip", "bitflip", "truncate", "extend", "hdr_type", "hdr_version", "hdr_len", "drop", "duplicate", "swap", "replay_other_dir", "replay_preccs", "replay_other_conn", "cut", "pad_valid", "pad_corrupt", "oversize_plain"}
 
 func TestC07_Faults(t *testing.T) {
 	n := 0
